@@ -3,8 +3,17 @@
 Spec: spec/ElfImage.tla over spec/Elf.tla (layouts, image builder, view) and the vendored
 registry.  G: every finished image of the abstract writer is concretised byte for byte from the
 chunks the specification computed and opened with ELFFile; every observable named by the
-property is compared with Elf!View."""
+property is compared with Elf!View.
+
+Machine-scoped names (`scope` of the emitted case, Elf!Scoped): a code with several registry names means what the machine of the
+image says.  sh_type / p_type: always asserted (the property names the machine-switched tables).  EI_OSABI (gABI: codes 64..255 are
+architecture specific): asserted where the library claims to know the machine's own name for the code (its vocabulary has it: EM_ARM
+64/97) - there a name another architecture owns is a violation; where the library does not have the machine's name (EM_AMDGPU,
+EM_TI_C6000 on the present tree: it reports ELFOSABI_ARM_AEABI from its flat table) every registered name of the code stays
+admissible, the property does not demand an OS ABI overlay.  VERIF_C01_OSABI_STRICT=1 asserts the scoped set there too (opt-in).
+`probes`: filler indices at the reserved section indices 0xff00..0xffff (and around PN_XNUM) that must resolve like any other."""
 import io
+import os
 
 from . import core
 from .core import denote
@@ -30,15 +39,25 @@ def check(run):
                'EI_DATA': vocab('ENUM_EI_DATA')}
     run.rule = ('cases = finished images of the ElfImage writer (modes: single sections x 9 machines x 4 class/order, section pairs, '
                 'segment lists, placement/entry-size options, no section table, one image per registry code of every enumerated '
-                'header field, numeric field boundary values, extended numbering); non-trivial = image has at least one '
+                'header field, OS ABI codes of the architecture-specific range x 8 machines x 4 class/order, numeric field boundary values, '
+                'extended numbering with section counts below / at / above the reserved index range); non-trivial = image has at least one '
                 'user section or segment; distinct by emitted bytes')
     run.assumptions += ['special section types are generated with minimal valid content and valid links only',
                         'SHF_COMPRESSED is never set here (C02 covers it)',
-                        'names the vendored registry does not define are not asserted (vocabulary gating)']
+                        'names the vendored registry does not define are not asserted (vocabulary gating)',
+                        'EI_OSABI codes 64..255 are scoped by e_machine only where the library knows the machine\'s own name for the code '
+                        '(EM_ARM); elsewhere any registered name of the code or the raw integer is admissible (VERIF_C01_OSABI_STRICT=1 scopes all)']
+    strict = os.environ.get('VERIF_C01_OSABI_STRICT') == '1'
     res = run.tlc('ElfImage', 'ElfImage_quick' if run.tier == 'quick' else 'ElfImage_thorough')
     seen = set()
     for case in run.cases(res.out):
         v = case['view']
+        sc = case.get('scope') or {}
+        v['scope'] = {'osabi': v['names']['EI_OSABI'], 'sh': {}, 'ph': {}, 'probes': case.get('probes') or {'sec': [], 'seg': []}}
+        if 'osabi' in sc and (strict or set(sc['osabi']) & voc_hdr['EI_OSABI']):
+            v['scope']['osabi'] = sc['osabi']
+        v['scope']['sh'] = {i: names for i, names in sc.get('sh', [])}
+        v['scope']['ph'] = {i: names for i, names in sc.get('ph', [])}
         data = concretise(case['chunks'])
         key = core.digest([case['tag'], len(data), data[:4096], core.digest(case['chunks'])])
         if key in seen:
@@ -91,9 +110,14 @@ def _compare(run, ef, v, data, bad, voc_sht, voc_pt, voc_hdr, SEC_CLASS, SEG_CLA
     idn = h['e_ident']
     if list(idn['EI_MAG']) != v['ident'][:4]:
         bad('ident.EI_MAG', v['ident'][:4], list(idn['EI_MAG']))
-    for f, code in (('EI_CLASS', v['ident'][4]), ('EI_DATA', v['ident'][5]), ('EI_VERSION', v['ident'][6]), ('EI_OSABI', v['ident'][7])):
+    for f, code in (('EI_CLASS', v['ident'][4]), ('EI_DATA', v['ident'][5]), ('EI_VERSION', v['ident'][6])):
         if enum_verdict(idn[f], code, v['names'][f], voc_hdr[f]) is False:
             bad('ident.' + f, {'code': code, 'names': v['names'][f]}, idn[f])
+    # the OS ABI name under the machine of the image (scoped set where it applies, see the module docstring)
+    code = v['ident'][7]
+    if enum_verdict(idn['EI_OSABI'], code, v['scope']['osabi'], voc_hdr['EI_OSABI']) is False:
+        bad('ident.EI_OSABI', {'code': code, 'names': v['scope']['osabi'], 'machine': denote(v['header']['e_machine'])}, idn['EI_OSABI'],
+            t='osabi=%d/machine=%d' % (code, denote(v['header']['e_machine'])))
     if idn['EI_ABIVERSION'] != v['ident'][8]:
         bad('ident.EI_ABIVERSION', v['ident'][8], idn['EI_ABIVERSION'])
     # ---- sections
@@ -113,7 +137,13 @@ def _compare(run, ef, v, data, bad, voc_sht, voc_pt, voc_hdr, SEC_CLASS, SEG_CLA
     byname = {}
     for s in v['sections']:
         i = s['index']
-        sec = ef.get_section(i)
+        try:
+            sec = ef.get_section(i)
+        except Exception as ex:
+            bad('get_section', 'section at index %#x of %#x' % (i, n), 'exc:%s:%s' % (type(ex).__name__, ex), t='index=%s' % _irange(i))
+            return
+        if i in v['scope']['sh']:
+            s = dict(s, typenames=v['scope']['sh'][i])
         _cmp_section(sec, s, v, bad, voc_sht, SEC_CLASS)
         if listed is not None:
             o = listed[i]
@@ -123,25 +153,37 @@ def _compare(run, ef, v, data, bad, voc_sht, voc_pt, voc_hdr, SEC_CLASS, SEG_CLA
     fl = v['filler']
     if fl['count']:
         idxs = range(fl['from'], fl['from'] + fl['count']) if full else \
-            sorted({fl['from'], fl['from'] + fl['count'] // 2, fl['from'] + fl['count'] - 1, min(fl['from'] + 0xff00, fl['from'] + fl['count'] - 1)})
+            sorted({fl['from'], fl['from'] + fl['count'] // 2, fl['from'] + fl['count'] - 1, min(fl['from'] + 0xff00, fl['from'] + fl['count'] - 1)}
+                   | set(v['scope']['probes']['sec']))
         for i in idxs:
-            sec = listed[i] if listed is not None else ef.get_section(i)
+            try:
+                sec = listed[i] if listed is not None else ef.get_section(i)
+            except Exception as ex:
+                bad('get_section', 'section at index %#x of %#x' % (i, n), 'exc:%s:%s' % (type(ex).__name__, ex), t='index=%s' % _irange(i))
+                break
             if sec.name != '' or sec['sh_type'] != 'SHT_NULL' or any(sec[k] != 0 for k in sec.header if k != 'sh_type') \
                     or type(sec).__name__ != 'NullSection':
                 bad('filler_section', 'null section at index %d' % i, [sec.name, dict(sec.header)])
                 break
         byname.setdefault('', []).extend([fl['from'], fl['from'] + fl['count'] - 1])
     if n:
+        failed = False                  # a by-name lookup raised: reported once, the remaining name queries are skipped
         for name, idxs in byname.items():
             if name == '' and fl['count'] and not full:
                 continue
             allidx = set(idxs)
             if name == '' and fl['count']:
                 allidx |= set(range(fl['from'], fl['from'] + fl['count']))
-            gi = ef.get_section_index(name)
+            try:
+                gi = ef.get_section_index(name)
+                sec = ef.get_section_by_name(name)
+            except Exception as ex:
+                bad('lookup_by_name', 'section %r at index %s of %#x' % (name, sorted(allidx)[:3], n), 'exc:%s:%s' % (type(ex).__name__, ex),
+                    t='index=%s/count=%s' % (_irange(min(allidx)), _irange(n - 1)))
+                failed = True
+                break
             if gi not in allidx:
                 bad('get_section_index', sorted(allidx)[:5], gi)
-            sec = ef.get_section_by_name(name)
             if sec is None or sec.name != name:
                 bad('get_section_by_name', name, None if sec is None else sec.name)
             elif gi in allidx and dict(sec.header) != dict(ef.get_section(gi).header):
@@ -151,9 +193,9 @@ def _compare(run, ef, v, data, bad, voc_sht, voc_pt, voc_hdr, SEC_CLASS, SEG_CLA
         # names that are not section names although the name table contains them as NUL-terminated substrings (tails of other names),
         # asked of a fresh object before any other lookup and again afterwards
         from elftools.elf.elffile import ELFFile
-        tails = sorted({nm[k:] for nm in byname for k in (1, 2, len(nm) - 1) if 0 < k < len(nm)} - set(byname))[:6]
+        tails = [] if failed else sorted({nm[k:] for nm in byname for k in (1, 2, len(nm) - 1) if 0 < k < len(nm)} - set(byname))[:6]
         fresh = ELFFile(io.BytesIO(data))
-        for q in tails + sorted(n for n in byname if n)[:2]:
+        for q in tails + ([] if failed else sorted(n for n in byname if n)[:2]):
             for obj, when in ((fresh, 'first'), (ef, 'later')):
                 if bool(obj.has_section(q)) != (q in byname):
                     bad('has_section.' + when, q in byname, not (q in byname), t='tail' if q not in byname else 'present')
@@ -161,10 +203,10 @@ def _compare(run, ef, v, data, bad, voc_sht, voc_pt, voc_hdr, SEC_CLASS, SEG_CLA
             if fresh.get_section_by_name(q) is not None or fresh.get_section_index(q) is not None:
                 bad('absent_name', None, q, t='tail')
         for absent in ('.no_such_section', '.tex'):
-            if absent not in byname:
+            if absent not in byname and not failed:
                 if ef.get_section_by_name(absent) is not None or ef.get_section_index(absent) is not None or ef.has_section(absent):
                     bad('absent_name', None, absent)
-        if full:
+        if full and not failed:
             # type filter agrees with enumeration
             for tname in {s['sh_type'] for s in listed if isinstance(s['sh_type'], str)}:
                 want = [i for i, s in enumerate(listed) if s['sh_type'] == tname]
@@ -198,6 +240,8 @@ def _compare(run, ef, v, data, bad, voc_sht, voc_pt, voc_hdr, SEC_CLASS, SEG_CLA
         return
     for g in v['segments']:
         seg = ef.get_segment(g['index'])
+        if g['index'] in v['scope']['ph']:
+            g = dict(g, typenames=v['scope']['ph'][g['index']])
         for f, val in g['hdr'].items():
             code = denote(val)
             if f == 'p_type':
@@ -211,7 +255,7 @@ def _compare(run, ef, v, data, bad, voc_sht, voc_pt, voc_hdr, SEC_CLASS, SEG_CLA
             bad('iter_vs_get_segment', dict(seg.header), dict(plist[g['index']].header))
     pf = v['pfiller']
     if pf['count']:
-        idxs = range(pf['from'], pf['from'] + pf['count']) if fullp else sorted({pf['from'], pf['from'] + pf['count'] - 1, pf['from'] + pf['count'] // 2})
+        idxs = range(pf['from'], pf['from'] + pf['count']) if fullp else sorted({pf['from'], pf['from'] + pf['count'] - 1, pf['from'] + pf['count'] // 2} | set(v['scope']['probes']['seg']))
         for i in idxs:
             seg = plist[i] if plist is not None else ef.get_segment(i)
             if seg['p_type'] != 'PT_NULL' or any(seg[k] != 0 for k in seg.header if k != 'p_type'):
@@ -227,6 +271,11 @@ def _compare(run, ef, v, data, bad, voc_sht, voc_pt, voc_hdr, SEC_CLASS, SEG_CLA
 
 def _tag(bad):
     return 'p'
+
+
+def _irange(i):
+    """class of a section index: below / inside / above the reserved range SHN_LORESERVE..SHN_HIRESERVE"""
+    return 'below_0xff00' if i < 0xff00 else 'reserved_0xff00_0xffff' if i <= 0xffff else 'above_0xffff'
 
 
 def _cmp_section(sec, s, v, bad, voc_sht, SEC_CLASS):
